@@ -497,6 +497,35 @@ def tlc_histories(tier, seed, tid0, want=None, cap=None):
     return jobs, gen
 
 
+def dup_histories(rng, n, tid0):
+    """lists made of very few different lines (repeated separator remarks, duplicate entries), renumbered several times with
+    small starts / steps - new numbers collide with numbers other (equal) lines carried before - with sort / permute /
+    group steps in between"""
+    jobs = []
+    for t in range(tid0, tid0 + n):
+        plat = rng.choice(["ios", "nxos"])
+        pool = ["remark ----------", "permit ip any any", "permit icmp any any", "remark = H1"]
+        m = rng.randint(2, 7)
+        lines = [rng.choice(pool[:2]) if rng.random() < 0.75 else rng.choice(pool) for _ in range(m)]
+        ops = []
+        for _ in range(rng.randint(2, 5)):
+            r = rng.random()
+            if r < 0.6:
+                ops.append(dict(act="Resequence", s=rng.randint(1, 12), d=rng.randint(1, 4)))
+            elif r < 0.75:
+                ops.append(dict(act="Sort"))
+            elif r < 0.9:
+                p = list(range(1, m + 1))
+                rng.shuffle(p)
+                ops += [dict(act="Permute", perm=p), dict(act="Sort")]
+            else:
+                ops.append(dict(act="Group", prefix="= "))
+        header = "ip access-list extended ACL1" if plat == "ios" else "ip access-list ACL1"
+        jobs.append(dict(tid=t, plat=plat, ver="", vmajor=0, header=header, lines=lines, groups={}, group_by="", notes=rng.random() < 0.5,
+                         port_nr=False, protocol_nr=False, ops=ops, origin="dup-history"))
+    return jobs
+
+
 def fill_permutations(rng, jobs):
     """Permute needs the current length, known only at run time: the executor substitutes identity when lengths differ;
     here we guess the length from the seed (flat ACLs) so that most permutations are real."""
